@@ -184,6 +184,16 @@ Ledger(s)     == s.bif = SumSpaces(s, Spaces)
 NonNegative(s) == s.bif >= 0 /\ \A k \in Spaces : s.sp[k].aeif >= 0
 AckElCount(s) == \A k \in Spaces :
                    s.sp[k].aeif = Cardinality({pn \in Pns(s.sp[k]) : s.sp[k].sent[pn].ackel})
+(* Wire clause of C08: "apart from acknowledgement-only packets and one probe datagram per
+   timeout, an endpoint never puts more in-flight bytes on the wire than its congestion
+   window allows".  cwnd/bif are the values before a transmit call, probe whether a probe
+   timeout is being answered, emitted the in-flight bytes (ack-eliciting packets, padding)
+   the call put on the wire, mds the maximum datagram size. *)
+WireBudget(cwnd, bif, probe, mds) ==
+  LET room == IF cwnd > bif THEN cwnd - bif ELSE 0 IN
+  IF probe /\ room < mds THEN mds ELSE room
+WireOk(cwnd, bif, probe, mds, emitted) == emitted <= WireBudget(cwnd, bif, probe, mds)
+
 CwndFloor(s)  == s.cwnd >= KMinimumWindow * MDS
 \* a tracked packet has not been reported yet
 Untold(s)     == \A k \in Spaces : \A pn \in Pns(s.sp[k]) : <<k, pn>> \notin s.reported
